@@ -389,7 +389,8 @@ def ensure_alias(aliases, nodes, call, src):
 # ---------------------------------------------------------------- rendering
 def read_expr(var, form):
     ref = {"attr": "a.", "pattr": "pk."}.get(form, "") + var["name"]
-    return {"num": "int(%s * 2)" % ref, "str": "len(%s)" % ref, "list": "sum(%s)" % ref,
+    return {"num": "(int(%s * 2) + (3 if isinstance(%s, float) else 0) + (5 if isinstance(%s, bool) else 0))" % (ref, ref, ref),
+            "str": "len(%s)" % ref, "list": "sum(%s)" % ref,
             "dict": "(%s[\"k\"] + len(%s))" % (ref, ref), "date": "%s.year" % ref,
             "tuplist": "(%s[0] + sum(%s[1]) + len(%s[1]))" % (ref, ref, ref),
             "seq": "(sum(%s) + (5 if isinstance(%s, tuple) else 0))" % (ref, ref)}[var["type"]]
@@ -1008,7 +1009,11 @@ def apply_edit(rng, prog, kind=None, force_var=None):
             if kind == "var_mutate" and v["type"] not in ("list", "dict", "tuplist"):
                 continue
             if v["type"] == "num":
-                v["value"] = rng.choice([x for x in [1, 2, 3, 4.5, 7, True, 0, 2.5, 8] if x != v["value"] or type(x) is not type(v["value"])])
+                twins = [x for x in [1, 1.0, True, 0, 0.0, False, 2, 2.0] if x == v["value"] and type(x) is not type(v["value"])]
+                if twins and rng.random() < 0.5:  # an equal number of another type
+                    v["value"] = rng.choice(twins)
+                else:
+                    v["value"] = rng.choice([x for x in [1, 2, 3, 4.5, 7, True, 0, 2.5, 8, 1.0, 2.0] if x != v["value"] or type(x) is not type(v["value"])])
             elif v["type"] == "str":
                 v["value"] = v["value"] + "t"
             elif v["type"] == "list":
